@@ -780,6 +780,30 @@ def input_object_field_uniqueness(rng, sv, doc):
     return d, "duplicated-input-field"
 
 
+BUILTIN_SCALARS = ("Int", "Float", "String", "Boolean", "ID")
+
+
+def input_field_uniqueness_in_custom_scalar(rng, sv, doc):
+    """a duplicated key inside an object literal given where a CUSTOM SCALAR is expected (hunt2 C06/1: the values rule
+    accepted the literal and raised SkipNode, hiding the duplicate from UniqueInputFieldNamesChecker)"""
+    d = copy.deepcopy(doc)
+    p = Pos(sv, d)
+    cands = []
+    for s, par, df, _ in p.fields:
+        f = p.fielddef(s, par)
+        for ad in (f.get("args") or []) if f else []:
+            b = gs.ty_base(ad["type"])
+            if sv.kind(b) == "scalar" and b not in BUILTIN_SCALARS and strip(ad["type"])[0] == "named":
+                cands.append((s, ad))
+    if not cands:
+        return None
+    s, ad = rng.choice(cands)
+    dup = ("obj", [("k", ("int", "1")), ("j", ("str", "x")), ("k", ("int", "2"))])
+    val = dup if rng.random() < 0.6 else ("obj", [("outer", dup)])
+    s["args"] = [a for a in s["args"] if a["name"] != ad["name"]] + [{"name": ad["name"], "value": val}]
+    return d, "duplicated-input-field-inside-custom-scalar-object"
+
+
 def directives_are_defined(rng, sv, doc):
     d = copy.deepcopy(doc)
     p = Pos(sv, d)
@@ -1326,6 +1350,7 @@ INJECTORS = [
     ("values_of_correct_type", "5.6.1", ["ValuesOfCorrectTypeChecker"], values_of_correct_type),
     ("input_object_field_names", "5.6.2", ["ValuesOfCorrectTypeChecker"], input_object_field_names),
     ("input_object_field_uniqueness", "5.6.3", ["UniqueInputFieldNamesChecker"], input_object_field_uniqueness),
+    ("input_object_field_uniqueness", "5.6.3", ["UniqueInputFieldNamesChecker"], input_field_uniqueness_in_custom_scalar),
     ("directives_are_defined", "5.7.1", ["KnownDirectivesChecker"], directives_are_defined),
     ("directives_in_valid_locations", "5.7.2", ["KnownDirectivesChecker"], directives_in_valid_locations),
     ("unique_directives_per_location", "5.7.3", ["UniqueDirectivesPerLocationChecker"], unique_directives_per_location),
